@@ -25,6 +25,12 @@ def main():
     ok = 'Termination' in res['violated']
     print('selftest %-52s %s' % ('WalkAlg Fixed=FALSE violates Termination', 'ok' if ok else 'FAILED'))
     good &= ok
+    # --- pinned discovery algorithm: TLC must find the over-rejection (refinement of the bracket rule fails)
+    cfg = execprops.exec_cfg(('H_E', 'M_E0', 'T_PM', 'O_PM', 4, 3), ('PinnedDiscoverAlgRefinesRule',)).replace('INVARIANT EmitX\n', '')
+    res = core.run_tlc('ExecEnum', cfg, wd)
+    ok = 'PinnedDiscoverAlgRefinesRule' in res['violated']
+    print('selftest %-52s %s' % ('pinned DiscoverAlg does not refine DiscoverRule', 'ok' if ok else 'FAILED'))
+    good &= ok
     # --- parser record: corrupt the recorded tree
     toks = [{'t': 'ID', 'v': 'g'}, {'t': 'ID', 'v': 'q'}, {'t': '[', 'v': ''}, {'t': 'INT', 'v': '0'}, {'t': ']', 'v': ''}]
     r = c02.run_case({'id': 'p', 'toks': toks, 'mode': 'spaced'})
